@@ -254,6 +254,11 @@ class Exc(object):
                     if isinstance(e, ast.Constant) and e.value in ('replace', 'ignore', 'backslashreplace',
                                                                    'surrogateescape'):
                         lenient = True
+                # decoding base64 output as ASCII cannot fail
+                rcv = fn.value if isinstance(fn, ast.Attribute) else None
+                if isinstance(rcv, ast.Call) and any(x.kind == 'ext' and x.name.startswith('base64.')
+                                                     for x in types.call_targets(rcv, ctx)):
+                    lenient = True
                 if not lenient:
                     out |= BM_RAISES.get(t.name, set())
             elif t.kind == 'builtin':
